@@ -8,7 +8,9 @@ def check(run):
     run._binary = run.build_harness()
     nh = 2500 if run.tier == "thorough" else 300
     tot = collections.Counter()
-    for cfg, absv, name in (("Session_Hist.cfg", 9, "session_abs"), ("Session_Hist_noabs.cfg", 0, "session_noabs")):
+    for cfg, absv, name in (("Session_Hist.cfg", 9, "session_abs"), ("Session_Hist_noabs.cfg", 0, "session_noabs"),
+                            # one session kept alive by a single client across its idle and absolute deadlines (store API: Get, Get again, Save)
+                            ("Session_Hist_life.cfg", 9, "session_life")):
         n, s = generic.gen_replay(run, "Session", cfg, "TestC15", name, env={"VERIF_ABS": absv}, workers=1, heap="4g",
                                   simulate="num=%d" % nh, depth=40, tag="HIST", dedupe=True)
         if s["histories"] != n:
@@ -19,7 +21,7 @@ def check(run):
     run.evaluations = tot["requests"]
     run.traces = tot["histories"] * 4
     run.nontrivial = tot["requests_loading_a_live_session"] + tot["requests_presenting_a_dead_id"] + tot["requests_presenting_a_forged_id"]
-    run.rule = ("TLC simulates histories of Session.tla (requests = begin, set/delete/destroy/regenerate/reset, end; store GetByID/Delete; even clock ticks "
+    run.rule = ("TLC simulates histories of Session.tla (requests = begin, set/delete (also after a destroy)/destroy/regenerate/reset, a second store.Get for a loaded session, end; store GetByID/Delete; a focused configuration keeps one session alive across its absolute deadline; even clock ticks "
                 "against odd idle/absolute timeouts so that no request lands on a deadline; presented id: none, any id ever issued, forged) with the session "
                 "each request must see; each history is replayed under the virtual clock through the real middleware and store for cookie/header/query sources "
                 "on memory and external storage with a counting KeyGenerator (ids comparable with the spec's). Compared: id, Fresh, data at begin, ids after "
